@@ -55,6 +55,12 @@ def findings():
         return not np.allclose(np.asarray(Q.to_dense()), [[0.5]]), np.asarray(Q.to_dense()).tolist()
     probe("rtruediv_is_div", "c / A returns A*(1/c) instead of c*A^-1 (Coq witness C03_rtruediv_refuted)", rdiv, "1.0 / Dense([[2.]])")
 
+    def rsub():
+        Xa = np.ones((2, 2))
+        B = Xa - A
+        return not np.array_equal(np.asarray(B.to_dense()), Xa - A.A), type(B).__name__
+    probe("rsub_missing", "array - operator raises TypeError (LinearOperator defines __radd__ but no __rsub__)", rsub, "ones((2,2)) - Dense([[1,2],[3,4]])")
+
     def cplx_scalar():
         B = (1 + 2j) * A
         return not np.array_equal(np.asarray(B.to_dense()), (1 + 2j) * A.A), np.asarray(B.to_dense()).tolist()
@@ -85,7 +91,7 @@ class EGen:
         free = shape is None
         if depth <= 0 or r.random() < 0.2:
             t = self.gen.tree(r.randint(0, 1), (m, n), cplx)
-            return dict(op="leaf", tree=t, arr=(r.random() < 0.15)), t["k"]
+            return dict(op="leaf", tree=t, arr=(t["k"] == "Dense" and r.random() < 0.3)), t["k"]
         opts = ["add", "sub", "neg", "mul", "mul", "div", "dot", "dot", "sum"]
         if free:
             opts += ["kron", "kron", "block"] + (["kronsum"] if True else [])
@@ -172,6 +178,8 @@ def ev(node):
     import cola
     o = node["op"]
     if o == "leaf":
+        if node.get("arr") and node["tree"]["k"] == "Dense":
+            return T.arr(node["tree"]["a"], node["tree"]["dt"])    # a plain array mixed into the expression
         A = T.build(node["tree"])
         return A
     if o == "add":
@@ -325,6 +333,30 @@ def coq_expr(node):
     raise AssertionError(o)
 
 
+def fix_arrays(node, present, top=True):
+    """plain-array leaves only where the algebra accepts them: at most one array operand per binary combinator,
+    none directly under scalar multiples / products, not on the left of `-` while __rsub__ is missing"""
+    o = node["op"]
+    def off(x):
+        if x["op"] == "leaf":
+            x["arr"] = False
+    kids = [node[k] for k in ("x", "y") if k in node] + list(node.get("l", []))
+    for k in kids:
+        fix_arrays(k, present, False)
+    if o in ("mul", "neg", "div", "dot"):
+        for k in kids:
+            off(k)
+    elif o in ("add", "sub", "kron", "kronsum", "block", "sum"):
+        arrs = [k for k in kids if k["op"] == "leaf" and k.get("arr")]
+        for k in arrs[1:]:
+            off(k)
+        if o == "sub" and "rsub_missing" in present:
+            off(node["x"])
+        if o == "sum" and kids and kids[0]["op"] == "leaf":
+            pass
+    return node
+
+
 def size(node):
     return 1 + sum(size(node[k]) for k in ("x", "y") if k in node) + sum(size(x) for x in node.get("l", []))
 
@@ -371,6 +403,7 @@ def run(ctx):
             node, _ = eg.expr(rnd.randint(1, ctx.budget(3, 4)), None, cplx)
         if size(node) > ctx.budget(12, 30):
             continue
+        fix_arrays(node, present)
         trees_ = all_trees(node, [])
         bad_region = False
         for t in trees_:
@@ -399,6 +432,9 @@ def run(ctx):
         o = dict()
         try:
             A = ev(node)
+            if isinstance(A, np.ndarray):       # the whole expression is a plain array: lazify it
+                import cola as _cola
+                A = _cola.lazify(A)
             m_, n_ = A.shape
             dts = {d for t in trees_ for d in O.leaf_dts(t)}
             xc = cplx and rnd.random() < 0.5
